@@ -161,3 +161,58 @@ Proof. intros Hnb Hdiv Hc Hf Ht Hbytes Hs0 Hn Hr Hg Hsb. destruct (bf_pos nbits 
   - apply Forall_forall. intros b Hbin. apply in_map_iff in Hbin as [[[n_r ii] dat] [<- Hin]].
     rewrite Forall_forall in Hok. specialize (Hok _ Hin). unfold block_ok in *. cbn [unpack_block]. destruct Hok as [Hl Hr'].
     split; [|assumption]. unfold len. rewrite to_list_length. fold (len dat). rewrite Hl. nia. Qed.
+
+(** * reading a packed file set = reading the byte-wide set that holds its unpacked samples *)
+Lemma unpackL_firstn nb big l : 0 < bf nb -> forall k,
+  firstn (k * Z.to_nat (bf nb)) (unpackL nb big l) = unpackL nb big (firstn k l).
+Proof. intro H. induction l as [|x r IH]; intro k.
+  - rewrite !firstn_nil. reflexivity.
+  - destruct k; [reflexivity|]. cbn [firstn]. unfold unpackL. cbn [flat_map]. fold (unpackL nb big r). fold (unpackL nb big (firstn k r)).
+    replace (S k * Z.to_nat (bf nb))%nat with (length (map (field nb big x) (zrange (bf nb))) + k * Z.to_nat (bf nb))%nat
+      by (rewrite map_length, zrange_length; lia).
+    rewrite firstn_app_2. f_equal. apply IH. Qed.
+
+Lemma unpackL_slice nb big l a n : 0 < bf nb -> 0 <= a -> 0 <= n ->
+  unpackL nb big (slice l a n) = slice (unpackL nb big l) (a * bf nb) (n * bf nb).
+Proof. intros Hb Ha Hn. unfold slice.
+  replace (Z.to_nat (n * bf nb)) with (Z.to_nat n * Z.to_nat (bf nb))%nat by nia.
+  replace (Z.to_nat (a * bf nb)) with (Z.to_nat a * Z.to_nat (bf nb))%nat by nia.
+  rewrite unpackL_skipn_any by assumption. rewrite unpackL_firstn by assumption. reflexivity. Qed.
+
+Definition unpacked_set (fs : list file) (nbits : Z) (big : bool) : list file := [mkfile [] (unpackL nbits big (flat fs))].
+
+Theorem run_plan_packed_as_bytes fs nch nbits big N gulp0 start nsamps skipback0 junk :
+  In nbits [1; 2; 4] -> (nch * nbits) mod 8 = 0 -> 1 <= nch ->
+  1 <= nfiles fs -> total fs = N * samp_bytes nch nbits -> Forall is_byte (flat fs) ->
+  0 <= start -> 1 <= nsamps -> start + nsamps <= N -> 1 <= gulp0 -> Z.abs skipback0 < Z.min nsamps gulp0 ->
+  run_plan_packed fs nch nbits big gulp0 start nsamps skipback0 junk =
+  run_plan (unpacked_set fs nbits big) nch gulp0 start nsamps skipback0
+  /\ 1 <= nfiles (unpacked_set fs nbits big) /\ total (unpacked_set fs nbits big) = N * nch.
+Proof. intros Hnb Hdiv Hc Hf Ht Hbytes Hs0 Hn Hr Hg Hsb. destruct (bf_pos nbits Hnb) as [Hb Hb8].
+  set (sbs := samp_bytes nch nbits) in *.
+  assert (Hnch : nch = sbs * bf nbits).
+  { unfold sbs, samp_bytes. assert (E : nch * nbits = 8 * (nch * nbits / 8)) by (apply Z.div_exact; lia).
+    assert (Hnb0 : 0 < nbits) by (cbn [In] in Hnb; lia). nia. }
+  assert (Hsbs : 1 <= sbs) by nia.
+  assert (Hf' : 1 <= nfiles (unpacked_set fs nbits big)) by (unfold nfiles, unpacked_set; cbn; lia).
+  assert (Ht' : total (unpacked_set fs nbits big) = N * nch).
+  { unfold total, unpacked_set, datalen. cbn [map dat fold_right]. fold (len (unpackL nbits big (flat fs))).
+    rewrite unpackL_len by lia. rewrite len_flat, Ht. nia. }
+  split; [|split; assumption].
+  unfold run_plan_packed. fold sbs.
+  rewrite (run_plan_params fs sbs N gulp0 start nsamps skipback0 Hf Hsbs Ht Hs0 Hn Hr Hg Hsb).
+  rewrite (run_plan_params (unpacked_set fs nbits big) nch N gulp0 start nsamps skipback0 Hf' Hc Ht' Hs0 Hn Hr Hg Hsb).
+  pose proof (fil_plan_params gulp0 start nsamps skipback0 N nch Hg Hn Hsb) as L.
+  destruct (plan_params gulp0 nsamps skipback0) as [[[g sb] nreads] lr]. destruct L as [_ F].
+  destruct F as [Fg Fsb Fsblt Fnr Ffit Flast Fcov].
+  f_equal. unfold plan_blocks. rewrite map_app. f_equal.
+  - rewrite map_map. apply map_ext_in. intros i Hi. apply In_zrange in Hi. unfold blk, unpack_block.
+    assert (HP : 0 <= P sbs start g sb i) by (apply P_nonneg; lia).
+    rewrite unpack_is_unpackL by (try assumption; apply Forall_slice, Hbytes).
+    rewrite unpackL_slice by (try lia; nia). unfold unpacked_set, flat. cbn [map dat concat]. rewrite app_nil_r.
+    f_equal. f_equal; unfold P; nia.
+  - destruct (lr =? 0) eqn:E; [reflexivity|]. cbn [map unpack_block].
+    assert (HP : 0 <= P sbs start g sb nreads) by (apply P_nonneg; lia).
+    rewrite unpack_is_unpackL by (try assumption; apply Forall_slice, Hbytes).
+    rewrite unpackL_slice by (try lia; nia). unfold unpacked_set, flat. cbn [map dat concat]. rewrite app_nil_r.
+    f_equal. f_equal. f_equal; unfold P; nia. Qed.
